@@ -12,16 +12,20 @@ GEN_S(long long, 64)
 GEN_S(vf_i128, 128)
 typedef long long I;
 #define FITS(v, TR_MIN, TR_MAX) ((v) >= (TR_MIN) && (v) <= (TR_MAX))
-/* one conversion pair: symbolic count c of type FR in [LO,HI]; N/D the reduced period quotient; result type range [TMIN,TMAX] */
-#define PAIR_T(IT, S, n, FR, N, D, TMIN, TMAX, LO, HI) { VF_INPUT(FR, c_##n); __CPROVER_assume(c_##n >= (LO) && c_##n <= (HI)); IT num = (IT)c_##n * (N); \
+/* one conversion pair: symbolic count c of type FR in [LO,HI]; N/D the reduced quotient From::period / To::period; result type range
+ * [TMIN,TMAX]; [CMIN,CMAX] the range of common_type_t<From::rep, To::rep>.  floor/ceil/round are DEFINED by the standard through
+ * comparisons and differences in the common duration type (period To/D, so From counts scale by N and To counts by D): the
+ * precondition keeps those defining expressions representable, so inherited overflow (std::chrono has it too) is not charged to tetl. */
+#define PAIR_T(IT, S, n, FR, N, D, TMIN, TMAX, CMIN, CMAX, LO, HI) { VF_INPUT(FR, c_##n); __CPROVER_assume(c_##n >= (LO) && c_##n <= (HI)); IT num = (IT)c_##n * (N); \
     IT et = s_trunc##S(num, D), ef = s_floor##S(num, D), ec = s_ceil##S(num, D), er = s_round##S(num, D); \
-    if (FITS(ef, (IT)(TMIN), (IT)(TMAX)) && FITS(ec, (IT)(TMIN), (IT)(TMAX)) && FITS(ef + 1, (IT)(TMIN), (IT)(TMAX)) && FITS(et - 1, (IT)(TMIN), (IT)(TMAX)) && FITS(et + 1, (IT)(TMIN), (IT)(TMAX))) { \
-      VF_ASSERT((IT)n##_cast(c_##n) == et, "duration_cast " #n ": exact quotient truncated toward zero"); \
+    if (FITS(et, (IT)(TMIN), (IT)(TMAX))) VF_ASSERT((IT)n##_cast(c_##n) == et, "duration_cast " #n ": exact quotient truncated toward zero"); \
+    if (FITS(et - 1, (IT)(TMIN), (IT)(TMAX)) && FITS(et + 1, (IT)(TMIN), (IT)(TMAX)) && FITS(ef + 1, (IT)(TMIN), (IT)(TMAX)) && FITS(num, (IT)(CMIN), (IT)(CMAX)) \
+        && FITS((et - 1) * (D), (IT)(CMIN), (IT)(CMAX)) && FITS((et + 1) * (D), (IT)(CMIN), (IT)(CMAX)) && FITS((ef + 1) * (D) - num, (IT)(CMIN), (IT)(CMAX))) { \
       VF_ASSERT((IT)n##_floor(c_##n) == ef, "floor " #n ": greatest representable value <= exact"); \
       VF_ASSERT((IT)n##_ceil(c_##n) == ec, "ceil " #n ": least representable value >= exact"); \
       VF_ASSERT((IT)n##_round(c_##n) == er, "round " #n ": nearest, ties to even"); } }
-#define PAIR(n, FR, N, D, TMIN, TMAX, LO, HI) PAIR_T(long long, 64, n, FR, N, D, TMIN, TMAX, LO, HI)
-#define PAIR128(n, FR, N, D, TMIN, TMAX, LO, HI) PAIR_T(vf_i128, 128, n, FR, N, D, TMIN, TMAX, LO, HI)
+#define PAIR(n, FR, N, D, TMIN, TMAX, CMIN, CMAX, LO, HI) PAIR_T(long long, 64, n, FR, N, D, TMIN, TMAX, CMIN, CMAX, LO, HI)
+#define PAIR128(n, FR, N, D, TMIN, TMAX, CMIN, CMAX, LO, HI) PAIR_T(vf_i128, 128, n, FR, N, D, TMIN, TMAX, CMIN, CMAX, LO, HI)
 #define SMIN16 (-32768)
 #define SMAX16 32767
 #define IMIN (-2147483647 - 1)
@@ -31,47 +35,47 @@ typedef long long I;
 
 /*@GROUP name=cast16_a props=C12,C02 kind=F solver=kissat timeout=400 cost=5@*/
 void h_cast16_a(void) {
-  PAIR(ms_s, short, 1, 1000, SMIN16, SMAX16, SMIN16, SMAX16)
-  PAIR(s_ms, short, 1000, 1, SMIN16, SMAX16, SMIN16, SMAX16)
+  PAIR(ms_s, short, 1, 1000, SMIN16, SMAX16, SMIN16, SMAX16, SMIN16, SMAX16)
+  PAIR(s_ms, short, 1000, 1, SMIN16, SMAX16, SMIN16, SMAX16, SMIN16, SMAX16)
   VF_REACH(); }
 
 /*@GROUP name=cast16_c props=C12,C02 kind=F solver=kissat timeout=400 cost=5@*/
 void h_cast16_c(void) {
-  PAIR(s_min, short, 1, 60, SMIN16, SMAX16, SMIN16, SMAX16)
-  PAIR(min_s, short, 60, 1, SMIN16, SMAX16, SMIN16, SMAX16)
-  PAIR(ms_s_c, signed char, 1, 1000, -128, 127, -128, 127)
+  PAIR(s_min, short, 1, 60, SMIN16, SMAX16, SMIN16, SMAX16, SMIN16, SMAX16)
+  PAIR(min_s, short, 60, 1, SMIN16, SMAX16, SMIN16, SMAX16, SMIN16, SMAX16)
+  PAIR(ms_s_c, signed char, 1, 1000, -128, 127, -128, 127, -128, 127)
   VF_REACH(); }
 
 /*@GROUP name=cast16_b props=C12,C02 kind=F solver=kissat timeout=400 cost=5@*/
 void h_cast16_b(void) {
-  PAIR(h_d, short, 1, 24, SMIN16, SMAX16, SMIN16, SMAX16)
-  PAIR(r13_r57, short, 7, 15, SMIN16, SMAX16, SMIN16, SMAX16)
-  PAIR(r57_r13, short, 15, 7, SMIN16, SMAX16, SMIN16, SMAX16)
-  PAIR(us_ms, short, 1, 1000, SMIN16, SMAX16, SMIN16, SMAX16)
-  PAIR(ns_us, short, 1, 1000, SMIN16, SMAX16, SMIN16, SMAX16)
+  PAIR(h_d, short, 1, 24, SMIN16, SMAX16, SMIN16, SMAX16, SMIN16, SMAX16)
+  PAIR(r13_r57, short, 7, 15, SMIN16, SMAX16, SMIN16, SMAX16, SMIN16, SMAX16)
+  PAIR(r57_r13, short, 15, 7, SMIN16, SMAX16, SMIN16, SMAX16, SMIN16, SMAX16)
+  PAIR(us_ms, short, 1, 1000, SMIN16, SMAX16, SMIN16, SMAX16, SMIN16, SMAX16)
+  PAIR(ns_us, short, 1, 1000, SMIN16, SMAX16, SMIN16, SMAX16, SMIN16, SMAX16)
   VF_REACH(); }
 
 /*@GROUP name=cast16_ntsc props=C12,C02 kind=F solver=kissat timeout=400 cost=5@*/
 void h_cast16_ntsc(void) {
-  PAIR(ntsc_ms, short, 1001, 30, SMIN16, SMAX16, SMIN16, SMAX16)
-  PAIR(si_s_ms, short, 1000, 1, IMIN, IMAX, SMIN16, SMAX16)
+  PAIR(ntsc_ms, short, 1001, 30, SMIN16, SMAX16, SMIN16, SMAX16, SMIN16, SMAX16)
+  PAIR(si_s_ms, short, 1000, 1, IMIN, IMAX, IMIN, IMAX, SMIN16, SMAX16)
   VF_REACH(); }
 
 /*@GROUP name=cast32_window props=C12,C02 kind=B bound=|count|<=2^17-and-windows-at-2^31 solver=kissat timeout=400 cost=5@*/
 void h_cast32_window(void) { VF_INPUT(unsigned char, w);
   int lo = w == 0 ? -131072 : (w == 1 ? IMAX - 262144 : IMIN), hi = w == 0 ? 131072 : (w == 1 ? IMAX : IMIN + 262144);
-  PAIR(i_ms_s, int, 1, 1000, IMIN, IMAX, lo, hi)
-  PAIR(i_s_h, int, 1, 3600, IMIN, IMAX, lo, hi)
-  PAIR(i_r13_r57, int, 7, 15, IMIN, IMAX, lo, hi)
-  PAIR(is_ms_s, int, 1, 1000, SMIN16, SMAX16, -131072, 131072)
+  PAIR(i_ms_s, int, 1, 1000, IMIN, IMAX, IMIN, IMAX, lo, hi)
+  PAIR(i_s_h, int, 1, 3600, IMIN, IMAX, IMIN, IMAX, lo, hi)
+  PAIR(i_r13_r57, int, 7, 15, IMIN, IMAX, IMIN, IMAX, lo, hi)
+  PAIR(is_ms_s, int, 1, 1000, SMIN16, SMAX16, IMIN, IMAX, -131072, 131072)
   VF_REACH(); }
 
 /*@GROUP name=cast64_window props=C12,C02 kind=B bound=|count|<=2^17-and-windows-at-2^62/2^63 solver=kissat timeout=600 cost=6@*/
 void h_cast64_window(void) { VF_INPUT(unsigned char, w);
   long long lo = w == 0 ? -131072 : (w == 1 ? (1LL << 62) - 131072 : (w == 2 ? LMIN : LMAX - 262144)), hi = w == 0 ? 131072 : (w == 1 ? (1LL << 62) + 131072 : (w == 2 ? LMIN + 262144 : LMAX));
-  PAIR128(l_ms_s, long long, 1, 1000, LMIN, LMAX, lo, hi)
-  PAIR128(l_s_h, long long, 1, 3600, LMIN, LMAX, lo, hi)
-  PAIR128(l_ns_s, long long, 1, 1000000000LL, LMIN, LMAX, lo, hi)
+  PAIR128(l_ms_s, long long, 1, 1000, LMIN, LMAX, LMIN, LMAX, lo, hi)
+  PAIR128(l_s_h, long long, 1, 3600, LMIN, LMAX, LMIN, LMAX, lo, hi)
+  PAIR128(l_ns_s, long long, 1, 1000000000LL, LMIN, LMAX, LMIN, LMAX, lo, hi)
   VF_REACH(); }
 
 /*@GROUP name=arith props=C12,C02 kind=F solver=kissat timeout=300@*/
